@@ -783,7 +783,7 @@ func (tab *tabulated) call(ex *Exec, fr *frame, args []Val) Val {
 	// domain check
 	for i, a := range args {
 		t := a.(*Term)
-		in := And(Cmp(OpSLe, Const(t.W, uint64(tab.lo[i])), t), Cmp(OpSLe, t, Const(t.W, uint64(tab.hi[i]))))
+		in := And(Cmp(OpULe, Const(t.W, uint64(tab.lo[i])), t), Cmp(OpULe, t, Const(t.W, uint64(tab.hi[i]))))
 		if !ex.branch(in) {
 			panic(inconclusive{"tabulated function " + tab.fn.String() + " called outside its domain"})
 		}
@@ -798,14 +798,54 @@ func (tab *tabulated) call(ex *Exec, fr *frame, args []Val) Val {
 		if t.IsConst() {
 			return rec(i+1, append(key, t.Signed()))
 		}
-		var r *Term
-		for v := tab.hi[i]; v >= tab.lo[i]; v-- {
+		subs := make([]*Term, 0, tab.hi[i]-tab.lo[i]+1)
+		allConst := true
+		for v := tab.lo[i]; v <= tab.hi[i]; v++ {
 			sub := rec(i+1, append(append([]int64(nil), key...), v))
-			if r == nil {
-				r = sub
-			} else {
-				r = Ite(Eq(t, Const(t.W, uint64(v))), sub, r)
+			if !sub.IsConst() {
+				allConst = false
 			}
+			subs = append(subs, sub)
+		}
+		inRange := func(lo, hi int64) *Term {
+			if lo == hi {
+				return Eq(t, Const(t.W, uint64(lo)))
+			}
+			return And(Cmp(OpULe, Const(t.W, uint64(lo)), t), Cmp(OpULe, t, Const(t.W, uint64(hi))))
+		}
+		if allConst {
+			// compress runs of equal results into ranges
+			type run struct {
+				lo, hi int64
+				val    *Term
+			}
+			var runs []run
+			for k, sub := range subs {
+				v := tab.lo[i] + int64(k)
+				if n := len(runs); n > 0 && runs[n-1].val.Val == sub.Val {
+					runs[n-1].hi = v
+				} else {
+					runs = append(runs, run{v, v, sub})
+				}
+			}
+			if tab.w == 0 {
+				r := False
+				for _, ru := range runs {
+					if ru.val.Val == 1 {
+						r = Or(r, inRange(ru.lo, ru.hi))
+					}
+				}
+				return r
+			}
+			r := runs[len(runs)-1].val
+			for k := len(runs) - 2; k >= 0; k-- {
+				r = Ite(inRange(runs[k].lo, runs[k].hi), runs[k].val, r)
+			}
+			return r
+		}
+		r := subs[len(subs)-1]
+		for k := len(subs) - 2; k >= 0; k-- {
+			r = Ite(Eq(t, Const(t.W, uint64(tab.lo[i]+int64(k)))), subs[k], r)
 		}
 		return r
 	}
